@@ -4,6 +4,11 @@
 # usage: tools/seedmatrix.sh [parallelism]
 par=${1:-3}
 cd /verif
+# frozen copy of the checks, so that edits in /verif during the (long) run do not leak into it
+snap=/tmp/verif-snap
+rm -rf $snap; mkdir -p $snap
+rsync -a --exclude evidence --exclude .git --exclude seeded --exclude fuzz/target /verif/ $snap/
+export VERIF_SRC=$snap
 ls -d seeded/*/ | while read d; do
   d=${d%/}; name=$(basename $d)
   [ -f $d/patch.diff ] || continue
@@ -11,3 +16,4 @@ ls -d seeded/*/ | while read d; do
   others=$(grep -oE '^=== C[0-9]+' $d/eval.log 2>/dev/null | awk '{print $2}' | sort -u | grep -v "^$id$" | tr '\n' ' ')
   echo "$name $id $others"
 done | xargs -P $par -L 1 sh -c 'name=$0; id=$1; shift; /verif/tools/mutate.sh fm-$name /verif/seeded/$name/patch.diff -- $id "$@" 2>&1 | grep -E "^===|^exit=|VIOLATION|INCONCLUSIVE" > /verif/seeded/$name/final.log; echo "done $name"'
+rm -rf $snap
